@@ -18,6 +18,7 @@ import (
 	"encoding/json"
 	"flag"
 	"fmt"
+	"hash/fnv"
 	"math"
 	"math/rand"
 	"os"
@@ -188,6 +189,11 @@ func tuples(rng *rand.Rand, uni []core.Value, nRandom int) []tuple {
 			}
 		}
 	}
+	// the same (text, pattern[, replacement]) with and without the flags that change the meaning:
+	// flag-true first in list order, flag-less first in reverse order
+	out = append(out, tuple{S("Ab"), S("ab"), values.True}, tuple{S("Ab"), S("ab")}, tuple{S("Ab"), S("ab"), values.False},
+		tuple{S("Ab"), S("ab"), S("x"), values.True}, tuple{S("Ab"), S("ab"), S("x")}, tuple{S("Ab"), S("ab"), S("x"), values.False},
+		tuple{S("a,B"), S("b"), values.True}, tuple{S("a,B"), S("b")}, tuple{S("a,B"), S("b"), values.False})
 	for i := 0; i < nRandom; i++ {
 		n := rng.Intn(5)
 		t := make(tuple, n)
@@ -255,18 +261,39 @@ type fnResult struct {
 	Mut       map[string]string `json:"mut,omitempty"`
 	ND        map[string]string `json:"nd,omitempty"`
 	Det       bool              `json:"det"`
+	Sig       []string          `json:"sig,omitempty"` // per tuple: digest of the first call's outcome
 }
 
-func observe(name string, f core.Function, ts []tuple) fnResult {
-	r := fnResult{Name: name, Det: !clockRandom[name]}
+func digest(name string, o outcome) string {
+	h := fnv.New64a()
+	h.Write([]byte{o.class})
+	if setValued[name] && o.class == 'o' && o.elems != nil {
+		h.Write([]byte(strings.Join(o.elems, "|")))
+	} else {
+		h.Write([]byte(o.val))
+	}
+	return fmt.Sprintf("%x", h.Sum64())
+}
+
+// observe calls f on every tuple, in list order or (rev) in the opposite order;
+// the two orders run in different processes and their outcomes are compared per
+// tuple by the parent (a result that depends on what was called before)
+func observe(name string, f core.Function, ts []tuple, rev bool) fnResult {
+	r := fnResult{Name: name, Det: !clockRandom[name], Sig: make([]string, len(ts))}
 	seen := map[string]struct{}{}
-	for ti, t := range ts {
+	for k := range ts {
+		ti := k
+		if rev {
+			ti = len(ts) - 1 - k
+		}
+		t := ts[ti]
 		a := freshAll(t)
 		b := freshAll(t)
 		before := render(a)
 		o1 := callOnce(f, a)
 		after := render(a)
 		r.Calls++
+		r.Sig[ti] = digest(name, o1)
 		switch o1.class {
 		case 'o':
 			r.Ok++
@@ -279,7 +306,7 @@ func observe(name string, f core.Function, ts []tuple) fnResult {
 		for i := range before {
 			if before[i] != after[i] {
 				r.MutCount++
-				if r.FirstMut == 0 {
+				if r.FirstMut == 0 || ti+1 < r.FirstMut {
 					r.FirstMut = ti + 1
 					r.Mut = map[string]string{"args": "[" + strings.Join(before, "; ") + "]", "arg_index": fmt.Sprint(i),
 						"before": before[i], "after": after[i], "outcome": string(o1.class)}
@@ -296,7 +323,7 @@ func observe(name string, f core.Function, ts []tuple) fnResult {
 		}
 		if !same {
 			r.NDCount++
-			if r.FirstND == 0 {
+			if r.FirstND == 0 || ti+1 < r.FirstND {
 				r.FirstND = ti + 1
 				r.ND = map[string]string{"args": "[" + strings.Join(before, "; ") + "]", "first": string(o1.class) + " " + o1.val,
 					"second": string(o2.class) + " " + o2.val}
@@ -318,9 +345,7 @@ func sortedNames(m map[string]core.Function) []string {
 
 // ---------------------------------------------------------------- worker
 
-func worker(tier string, seed int64, lo, hi int) {
-	reg := inMemoryRegistry()
-	names := sortedNames(reg)
+func makeTuples(tier string, seed int64) []tuple {
 	rng := rand.New(rand.NewSource(seed))
 	nUni, nRandom := 40, 40
 	if tier == "thorough" {
@@ -332,12 +357,25 @@ func worker(tier string, seed int64, lo, hi int) {
 			uni = append(uni, v)
 		}
 	}
-	ts := tuples(rng, uni, nRandom)
+	return tuples(rng, uni, nRandom)
+}
+
+func worker(tier string, seed int64, lo, hi int, rev bool) {
+	reg := inMemoryRegistry()
+	names := sortedNames(reg)
+	ts := makeTuples(tier, seed)
 	w := bufio.NewWriter(os.Stdout)
-	for i := lo; i < hi && i < len(names); i++ {
+	for k := lo; k < hi && (rev || k < len(names)); k++ {
+		i := k
+		if rev {
+			i = lo + hi - 1 - k
+			if i >= len(names) {
+				continue
+			}
+		}
 		fmt.Fprintf(w, "START %s\n", names[i])
 		w.Flush()
-		r := observe(names[i], reg[names[i]], ts)
+		r := observe(names[i], reg[names[i]], ts, rev)
 		b, _ := json.Marshal(r)
 		fmt.Fprintf(w, "RESULT %s\n", b)
 		w.Flush()
@@ -360,13 +398,14 @@ func main() {
 		seed := fs.Int64("seed", 1, "")
 		lo := fs.Int("lo", 0, "")
 		hi := fs.Int("hi", 0, "")
+		rev := fs.Bool("rev", false, "")
 		Must(fs.Parse(os.Args[1:]))
-		worker(*tier, *seed, *lo, *hi)
+		worker(*tier, *seed, *lo, *hi, *rev)
 		return
 	}
 	out, tier, seed, _ := Args()
 	m := NewMeta("C15", tier, seed)
-	m.Rule = "every function registered by the in-memory packages of pkg/stdlib (types, strings, math, collections, datetime, arrays, objects, path, testing) x argument tuples of arity 0-4: all tuples of arity <= 2 and a block of triples over a directed pool of nested containers, plus seeded random tuples over the bounded universe; each tuple is two calls (snapshot before/after; repeat on fresh equal arguments). A tuple is non-trivial for a function when the call returns a value (passes argument validation); distinct = distinct rendered argument tuples per function"
+	m.Rule = "every function registered by the in-memory packages of pkg/stdlib (types, strings, math, collections, datetime, arrays, objects, path, testing) x argument tuples of arity 0-4: all tuples of arity <= 2 and a block of triples over a directed pool of nested containers, plus seeded random tuples over the bounded universe; each tuple is two calls (snapshot before/after; repeat on fresh equal arguments), and the whole tuple list is called a second time in the opposite order by a fresh process and the outcomes compared per tuple (results must not depend on earlier calls). A tuple is non-trivial for a function when the call returns a value (passes argument validation); distinct = distinct rendered argument tuples per function"
 	reg := inMemoryRegistry()
 	names := sortedNames(reg)
 	// cross-check with the compiler's own registry
@@ -407,14 +446,14 @@ func main() {
 		err     string
 	}
 	nChunks := (len(names) + chunk - 1) / chunk
-	res := make([]chunkRes, nChunks)
+	res := make([]chunkRes, 2*nChunks) // [0,nChunks): list order; [nChunks,2nChunks): reverse order, own processes
 	var wg sync.WaitGroup
 	sem := make(chan struct{}, 12)
 	limit := 240 * time.Second
 	if tier == "thorough" {
 		limit = 1200 * time.Second
 	}
-	for c := 0; c < nChunks; c++ {
+	for c := 0; c < 2*nChunks; c++ {
 		wg.Add(1)
 		go func(c int) {
 			defer wg.Done()
@@ -422,8 +461,12 @@ func main() {
 			defer func() { <-sem }()
 			ctx, cancel := context.WithTimeout(context.Background(), limit)
 			defer cancel()
-			cmd := exec.CommandContext(ctx, exe, "-worker", "-tier", tier, "-seed", fmt.Sprint(seed),
-				"-lo", fmt.Sprint(c*chunk), "-hi", fmt.Sprint((c+1)*chunk))
+			cc := c % nChunks
+			args := []string{"-worker", "-tier", tier, "-seed", fmt.Sprint(seed), "-lo", fmt.Sprint(cc * chunk), "-hi", fmt.Sprint((cc + 1) * chunk)}
+			if c >= nChunks {
+				args = append(args, "-rev")
+			}
+			cmd := exec.CommandContext(ctx, exe, args...)
 			outb, err := cmd.Output()
 			cur := ""
 			sc := bufio.NewScanner(strings.NewReader(string(outb)))
@@ -452,8 +495,48 @@ func main() {
 	var rows []fnResult
 	var direct []interface{}
 	done := map[string]bool{}
-	for _, cr := range res {
+	revRows := map[string]fnResult{}
+	for _, cr := range res[nChunks:] {
 		for _, r := range cr.results {
+			revRows[r.Name] = r
+		}
+	}
+	ts := makeTuples(tier, seed)
+	crossOrder := 0
+	for ci, cr := range res {
+		for _, r := range cr.results {
+			if ci >= nChunks {
+				continue
+			}
+			// the same tuples called in the opposite order by another process
+			if q, ok := revRows[r.Name]; ok {
+				r.Calls += q.Calls
+				if q.FirstMut != 0 && (r.FirstMut == 0 || q.FirstMut < r.FirstMut) {
+					r.FirstMut, r.Mut = q.FirstMut, q.Mut
+				}
+				r.MutCount += q.MutCount
+				if q.FirstND != 0 && (r.FirstND == 0 || q.FirstND < r.FirstND) {
+					r.FirstND, r.ND = q.FirstND, q.ND
+				}
+				r.NDCount += q.NDCount
+				r.OrderOnly += q.OrderOnly
+				for ti := range r.Sig {
+					if ti < len(q.Sig) && r.Sig[ti] != q.Sig[ti] && !clockRandom[r.Name] {
+						crossOrder++
+						r.NDCount++
+						if r.FirstND == 0 || ti+1 < r.FirstND {
+							r.FirstND = ti + 1
+							r.ND = map[string]string{"args": "[" + strings.Join(render(ts[ti]), "; ") + "]",
+								"first":  "outcome digest " + r.Sig[ti] + " when the tuples are called in list order",
+								"second": "outcome digest " + q.Sig[ti] + " in a fresh process calling the same tuples in the opposite order (the result depends on earlier calls)"}
+						}
+					}
+				}
+			} else {
+				direct = append(direct, map[string]interface{}{"key": "worker-rev|" + r.Name, "fn": r.Name, "tags": []string{"crash-or-hang"},
+					"what": fmt.Sprintf("no result for %s from the worker that calls the tuples in reverse order", r.Name)})
+			}
+			r.Sig = nil
 			rows = append(rows, r)
 			done[r.Name] = true
 		}
@@ -470,6 +553,7 @@ func main() {
 		}
 	}
 	m.Extra["functions_not_observed"] = notRun
+	m.Distribution["cross-order-differences"] = crossOrder
 
 	f, err := os.Create(filepath.Join(out, "cases.v"))
 	Must(err)
